@@ -361,8 +361,11 @@ double splinetable<Alloc>::ndsplineeval_deriv(const double* x, const int* center
 						  x[n], centers[n], order[n],
 						  localbasis[n]);
 		} else {
+			//as for values and first derivatives, the polynomial piece to the left is
+			//used from the upper end of the fully supported region upwards
+			const bool left = (x[n] >= knots[n][naxes[n]]);
 			for (uint32_t i = 0; i <= order[n]; i++)
-				localbasis[n][i] = bspline_deriv(
+				localbasis[n][i] = (left ? bspline_deriv_left : bspline_deriv)(
 												   &knots[n][0], x[n],
 												   centers[n] - order[n] + i, 
 												   order[n], derivatives[n]);
@@ -579,8 +582,9 @@ double splinetable<Alloc>::evaluator_type<Float>::ndsplineeval_deriv(const doubl
 						  x[n], centers[n], table.order[n],
 						  localbasis[n]);
 		} else {
+			const bool left = (x[n] >= table.knots[n][table.naxes[n]]);
 			for (uint32_t i = 0; i <= table.order[n]; i++)
-				localbasis[n][i] = bspline_deriv(
+				localbasis[n][i] = (left ? bspline_deriv_left : bspline_deriv)(
 												   &table.knots[n][0], x[n],
 												   centers[n] - table.order[n] + i, 
 												   table.order[n], derivatives[n]);
